@@ -1,6 +1,7 @@
 package scen
 
 import (
+	"time"
 	"encoding/json"
 	"fmt"
 	"math"
@@ -144,6 +145,14 @@ func relClose(a, b float32) bool {
 
 func runC15(s *kernel.Sim) {
 	tp := s.Tape
+	// the process's time zone is part of the environment the state file is written
+	// and read back in: half of the runs are not in UTC
+	if tp.Chance(1, 2) {
+		old := time.Local
+		time.Local = time.FixedZone("verif", []int{3, -8, 5}[tp.Choose(3)]*3600+[]int{0, 1800}[tp.Choose(2)])
+		defer func() { time.Local = old }()
+		s.Knobs["time_zone"] = time.Local.String()
+	}
 	threshold := tp.Range(2, 5)
 	n := tp.Range(5, 120)
 	nIDs := threshold + tp.Range(0, 4)
